@@ -42,6 +42,9 @@ TEXTS = {
     "C10": {"engine": "sim+storefs", "design_ref": "DESIGN.md 3/C10", "technique": "stateful PBT with restart probes at generated history points (round trip across a second runner on the same store) + codec round-trip PBT over arbitrary payloads",
             "level_text": sim_text("around restart probes: at generated points of the history the reported state is recorded, the store saved (real JsonDataStore on disk) and a second runner built from it; every job must be terminal, capacity free, the id set unchanged and every finished job reported field by field as before.") + " A pure round-trip property over generated PersistedData covers the codec alone.",
             "level_note": SIM_NOTE + " Snapshots are taken at quiescent points of the harness (any mix of held loops, mid-run tasks, waiting jobs), not inside a critical section of the runner."},
+    "C11": {"engine": "sim", "design_ref": "DESIGN.md 3/C11", "technique": "stateful PBT ending in a concurrent Shutdown (graceful / forced at a generated point) with racing requests; end-state and store-equality oracle; real-time batch for the persist interval",
+            "level_text": sim_text("for histories that end with Shutdown running in its own goroutine while the harness keeps finishing tasks, releasing loops and issuing schedule/save requests: at return no job is running or waiting, no task executes, the last snapshot the store received equals the reported state, later requests are refused (ErrShuttingDown / 503); graceful never stops a running job, forced does and returns the context error.") + " A real-time part runs 16 runners per batch without explicit saves and compares store and reported state after the persist interval.",
+            "level_note": SIM_NOTE + " The overlap of a request with the shutdown gate is generated but its exact interleaving is the Go scheduler's. The binary (SIGINT/SIGTERM) is exercised by the real-process engine, not here."},
     "C12": {"engine": "sim", "design_ref": "DESIGN.md 3/C12", "technique": "stateful PBT over real stores on disk with a generated pre-loaded job population; set constraints and three-view agreement around every save",
             "level_text": sim_text("around every explicit save: the sets of jobs before/after, the content of data.json, GET /pipelines/jobs and the log directory listing are compared against the constraints of the statement (only finished jobs removed, count/period bounds, newest kept first, undefined pipelines purged, logs removed with their job and untouched otherwise).") + " The population comes from a generated pre-loaded store (ages, states, undefined pipelines) plus live activity and reloads.",
             "level_note": SIM_NOTE + " Ages at the period boundary are not generated (no clock injection). A stricter reference policy is computed too; disagreements that still satisfy the statement are only counted in the evidence."},
@@ -60,7 +63,7 @@ TEXTS = {
 }
 
 ENGINES = [
-    {"name": "sim", "path": "harness/sim", "serves_properties": ["C01", "C02", "C03", "C04", "C05", "C06", "C07", "C08", "C10", "C12", "C15", "C16"],
+    {"name": "sim", "path": "harness/sim", "serves_properties": ["C01", "C02", "C03", "C04", "C05", "C06", "C07", "C08", "C10", "C11", "C12", "C15", "C16"],
      "kind_free_text": "controlled-schedule simulator: rapid state machine over the exported API of PipelineRunner with a harness-owned task runner, scheduler-loop hook and reference monitor"},
     {"name": "inputs", "path": "harness/inputs", "serves_properties": ["C17"], "kind_free_text": "pure generated-input properties (rapid) and native fuzz targets"},
     {"name": "storefs", "path": "harness/storefs", "serves_properties": ["C09", "C10"], "kind_free_text": "real JsonDataStore on disk: racing readers, SIGKILLed saver child (cmd/vhelper), strace fault injection"},
@@ -69,5 +72,5 @@ ENGINES = [
 
 NOT_APPLICABLE = [
     {"property_id": p, "reason": "check not built yet in this round (planned engine in DESIGN.md); not claimed until it exists"}
-    for p in [ "C11", "C13", "C18", "C19", "C20"]
+    for p in [ "C13", "C18", "C19", "C20"]
 ]
